@@ -179,7 +179,8 @@ def build_pptx(sc):
         pics, rels = [], []
         for j, a in enumerate(anchors, start=1):
             tg, ext = target_of(a, "ppt/slides", "ppt/media")
-            rels.append((f"rId{j}", IMG_T, tg, ext))
+            if a.kind != "dangling":
+                rels.append((f"rId{j}", IMG_T, tg, ext))
             pics.append(f'<p:pic><p:nvPicPr><p:cNvPr id="{j + 1}" name="Pic {j}" descr="d{j}"/><p:cNvPicPr/><p:nvPr/></p:nvPicPr>'
                         f'<p:blipFill><a:blip r:embed="rId{j}"/></p:blipFill>'
                         f'<p:spPr><a:xfrm><a:off x="{j * 1000}" y="{j * 1000}"/><a:ext cx="95250" cy="190500"/></a:xfrm></p:spPr></p:pic>')
@@ -203,7 +204,8 @@ def build_docx(sc):
         for a in anchors:
             j += 1
             tg, ext = target_of(a, "word", "word/media")
-            rels.append((f"rId{j}", IMG_T, tg, ext))
+            if a.kind != "dangling":
+                rels.append((f"rId{j}", IMG_T, tg, ext))
             paras.append(f'<w:p><w:r><w:drawing><wp:inline><wp:extent cx="95250" cy="190500"/><a:graphic><a:graphicData>'
                          f'<pic:pic><pic:nvPicPr><pic:cNvPr id="{j}" name="Pic {j}" descr="d{j}"/></pic:nvPicPr>'
                          f'<pic:blipFill><a:blip r:embed="rId{j}"/></pic:blipFill></pic:pic></a:graphicData></a:graphic></wp:inline></w:drawing></w:r></w:p>')
@@ -236,7 +238,8 @@ def build_xlsx(sc):
             rels, pics = [], []
             for j, a in enumerate(anchors, start=1):
                 tg, ext = target_of(a, "xl/drawings", "xl/media")
-                rels.append((f"rId{j}", IMG_T, tg, ext))
+                if a.kind != "dangling":
+                    rels.append((f"rId{j}", IMG_T, tg, ext))
                 pics.append(f'<xdr:oneCellAnchor><xdr:from><xdr:col>{j}</xdr:col><xdr:colOff>0</xdr:colOff><xdr:row>{j}</xdr:row><xdr:rowOff>0</xdr:rowOff></xdr:from>'
                             f'<xdr:pic><xdr:nvPicPr><xdr:cNvPr id="{j}" name="Pic {j}" descr="d{j}"/><xdr:cNvPicPr/></xdr:nvPicPr>'
                             f'<xdr:blipFill><a:blip r:embed="rId{j}"/></xdr:blipFill><xdr:spPr/></xdr:pic><xdr:clientData/></xdr:oneCellAnchor>')
@@ -643,7 +646,21 @@ def jpeg_variants(rnd):
     yield "DHT (C4) before the frame header", jpeg(w, h, pre=(b"\xff\xc4" + struct.pack(">H", 5) + b"\x00\x01\x02",)), (w, h)
 
 
-def check_sniffers(which=None):
+def jpeg_marker_sweep():
+    """Directed search over the construct the JPEG clause is about: EVERY marker code as a segment in front of EVERY kind of frame header.
+    The leading segment's payload looks like a frame header (so a mis-classified marker yields a wrong size); the expected size is what the
+    reference reader `declared_size` (format specification) says; inputs on which the reference declares nothing are skipped."""
+    sofs = [0xC0, 0xC1, 0xC2, 0xC3, 0xC5, 0xC6, 0xC7, 0xC9, 0xCA, 0xCB, 0xCD, 0xCE, 0xCF]
+    for m in range(256):
+        for k, sof in enumerate(sofs if 0xC0 <= m <= 0xCF else [sofs[m % len(sofs)]]):
+            seg = bytes([0xFF, m]) + struct.pack(">H", 10) + b"\x08\x10\x11\x12\x13\x01\x01\x11"
+            data = jpeg(300 + m, 200 + k, pre=(seg,), sof=sof)
+            want = declared_size(data)
+            if want is not None:
+                yield f"segment with marker 0x{m:02X} before SOF 0x{sof:02X}", data, tuple(want)
+
+
+def check_sniffers(which=None, extra_files=None):
     """The real sniffers against the reference reader `declared_size` (format specifications) on generated files."""
     d = _imp("sharepoint2text.parsing.extractors.ms_modern.docx_extractor")._get_image_pixel_dimensions
     p = _imp("sharepoint2text.parsing.extractors.ms_modern.pptx_extractor")._get_image_pixel_dimensions
@@ -664,6 +681,10 @@ def check_sniffers(which=None):
         files.append(("bmp top-down", "bmp", bmp(w, -h), (w, h)))
         for (what, data, size) in jpeg_variants(rnd):
             files.append(("jpeg " + what, "jpeg", data, size))
+    for (what, data, size) in jpeg_marker_sweep():
+        files.append(("jpeg " + what, "jpeg", data, size))
+    for extra in (extra_files or []):
+        files.insert(0, extra)
     files.append(("not an image", "bin", b"hello world, no signature here....", None))
     files.append(("empty", "bin", b"", None))
     for name, fn in fns.items():
@@ -686,7 +707,7 @@ def check_sniffers(which=None):
     # the three OOXML copies agree (bounded differential run, also on malformed inputs)
     if not which or which == "agree":
         rnd2 = random.Random(23)
-        toks = [b"\xff", b"\xff\xc0", b"\xff\xc2", b"\xff\xe0", b"\xff\xd9", b"\xff\xda", b"\xff\xff", b"\x00\x02", b"\x00\x08", b"\x00\x0b",
+        toks = [bytes([0xFF, c]) for c in range(0xC0, 0xD0)] + [b"\xff", b"\xff\xc0", b"\xff\xc2", b"\xff\xe0", b"\xff\xd9", b"\xff\xda", b"\xff\xff", b"\x00\x02", b"\x00\x08", b"\x00\x0b",
                 b"\x00\x40", b"\x00\x01", b"\x08\x00\x10\x00\x20\x01", b"\x08", b"\x00", b"\x11\x22\x33", b"\xc0"]
         for _ in range(6000):
             dd = b"\xff\xd8" + b"".join(rnd2.choice(toks) for _ in range(rnd2.randint(0, 9)))
@@ -705,18 +726,64 @@ def check_sniffers(which=None):
 # ---- data_types: unit view vs document view on hand-built content objects (bounded: <= 3 elements x <= 2 images) ----
 def check_views(cls=None):
     dt = _imp("sharepoint2text.parsing.extractors.data_types")
-    mk_img = {"PdfContent": lambda k: dt.PdfImage(index=k, data=bytes([k])), "PptxContent": lambda k: dt.PptxImage(image_index=k, blob=bytes([k])),
-              "XlsxContent": lambda k: dt.XlsxImage(image_index=k, data=io.BytesIO(bytes([k]))),
-              "OdpContent": lambda k: dt.OpenDocumentImage(image_index=k, data=io.BytesIO(bytes([k]))),
-              "OdsContent": lambda k: dt.OpenDocumentImage(image_index=k, data=io.BytesIO(bytes([k])))}
+    import dataclasses
+    icls = {"PdfContent": dt.PdfImage, "PptxContent": dt.PptxImage, "XlsxContent": dt.XlsxImage, "OdpContent": dt.OpenDocumentImage,
+            "OdsContent": dt.OpenDocumentImage, "PptContent": dt.PptImage, "DocContent": dt.DocImage, "DocxContent": dt.DocxImage,
+            "XlsContent": dt.XlsImage, "OdgContent": dt.OpenDocumentImage, "OdtContent": dt.OpenDocumentImage, "RtfContent": dt.RtfImage,
+            "EpubContent": dt.EpubImage}
+    flat = ("DocContent", "DocxContent", "XlsContent", "OdgContent", "OdtContent", "RtfContent", "EpubContent")
+
+    def mk_image(c, k):
+        """Image objects of every shape an extractor can produce: with payload, all-default (no payload: external link),
+        error placeholder, zero / missing size -- a view that filters on any field is exposed."""
+        cl = icls[c]
+        names = {f.name: f for f in dataclasses.fields(cl)}
+        num = next((x for x in ("image_index", "image_number", "index") if x in names), None)
+        variant = k % 4
+        kw = {num: k} if num else {}
+        pay = "blob" if "blob" in names else "data"
+        raw = bytes([k])
+        if variant in (0, 3):
+            ann = str(names[pay].type) if pay in names else ""
+            if pay in names:
+                kw[pay] = io.BytesIO(raw) if "BytesIO" in ann else raw
+            if "content_type" in names:
+                kw["content_type"] = "image/png"
+        if variant == 2 and "error" in names:
+            kw["error"] = "read failed"
+        if variant == 3:
+            for dim in ("width", "height"):
+                if dim in names:
+                    kw[dim] = 0 if cl in (dt.PdfImage, dt.XlsxImage) else None
+        for f in dataclasses.fields(cl):      # required fields without a default
+            if f.name not in kw and f.default is dataclasses.MISSING and f.default_factory is dataclasses.MISSING:
+                ann = str(f.type)
+                kw[f.name] = k if "int" in ann else ("" if "str" in ann else (raw if "bytes" in ann else None))
+        return cl(**kw)
+    mk_img = {c: (lambda k, c=c: mk_image(c, k)) for c in icls}
     mk_el = {"PdfContent": lambda imgs, tabs, k: dt.PdfPage(text=f"p{k}", images=imgs, tables=tabs),
              "PptxContent": lambda imgs, tabs, k: dt.PptxSlide(slide_number=k, images=imgs, tables=tabs),
              "XlsxContent": lambda imgs, tabs, k: dt.XlsxSheet(name=f"S{k}", images=imgs, data=(tabs[0] if tabs else [])),
              "OdpContent": lambda imgs, tabs, k: dt.OdpSlide(slide_number=k, images=imgs, tables=tabs),
              "OdsContent": lambda imgs, tabs, k: dt.OdsSheet(name=f"S{k}", images=imgs, data=(tabs[0] if tabs else []))}
     field = {"PdfContent": "pages", "PptxContent": "slides", "XlsxContent": "sheets", "OdpContent": "slides", "OdsContent": "sheets"}
+    for c in ([cls] if cls else list(flat) + ["PptContent"]):
+        if c not in flat and c != "PptContent":
+            continue
+        for n in range(0, 6):
+            imgs = [mk_img[c](k) for k in range(1, n + 1)]
+            if c == "PptContent":
+                content = dt.PptContent(slides=[dt.PptSlideContent(slide_number=1, images=imgs[:2]), dt.PptSlideContent(slide_number=2, images=imgs[2:])])
+            else:
+                content = getattr(dt, c)(images=list(imgs))
+            doc = list(content.iterate_images())
+            if [id(x) for x in doc] != [id(x) for x in imgs]:
+                return {"target": f"{c}.iterate_images", "inputs": {"class": c, "images": n, "shapes": "payload / no payload / error placeholder / zero size, cyclic"},
+                        "expected": f"all {n} entries of the image list(s), in order", "observed": f"{len(doc)} images"}
     for c in ([cls] if cls else list(field)):
-        for shape in itertools.product([0, 1, 2], repeat=3):
+        if c not in field:
+            continue
+        for shape in itertools.product([0, 1, 2, 3], repeat=3):
             for n in range(0, 4):
                 k = 0
                 els = []
@@ -854,6 +921,45 @@ def witness(kind, fmt):
                     "expected": "images numbered in document order: a.png = 1, b.gif = 2",
                     "observed": [("a.png" if o[0] == A else "b.gif" if o[0] == B else "?", o[2].get("image_number")) for o in obs]}
         return None
+    if kind in ("slide-target", "drawing-dir", "sheet-order"):
+        def files_of(data):
+            z = zipfile.ZipFile(io.BytesIO(data))
+            return {n: z.read(n) for n in z.namelist()}
+        if kind == "slide-target":
+            for tgt in (b"/ppt/slides/slide1.xml", b"./slides/slide1.xml", b"../ppt/slides/slide1.xml"):
+                sc = simple("pptx", ["relative"], 2, 1)
+                f = files_of(build_pptx(sc))
+                f["ppt/_rels/presentation.xml.rels"] = f["ppt/_rels/presentation.xml.rels"].replace(b'Target="slides/slide1.xml"', b'Target="' + tgt + b'"')
+                obs = observe(read("pptx", zip_bytes(f)))
+                if [o[0] for o in obs] != [e[0] for e in expected(sc)]:
+                    return {"target": "pptx: iterate_images()", "aspect": "resolution", "inputs": dict(sc.describe(), presentation_rels=f"slide 1 is referenced as Target={tgt.decode()!r}"),
+                            "expected": "2 images (one per slide), bytes identical", "observed": f"{len(obs)} images: the slide part is not found and its picture is lost"}
+            return None
+        if kind == "drawing-dir":
+            sc = simple("xlsx", ["relative"], 1, 1)
+            g = {k.replace("xl/drawings/", "xl/dr/"): v for k, v in files_of(build_xlsx(sc)).items()}
+            g["xl/worksheets/_rels/sheet1.xml.rels"] = g["xl/worksheets/_rels/sheet1.xml.rels"].replace(b"../drawings/drawing1.xml", b"../dr/drawing1.xml")
+            obs = observe(read("xlsx", zip_bytes(g)))
+            if [o[0] for o in obs] != [e[0] for e in expected(sc)]:
+                return {"target": "xlsx: iterate_images()", "aspect": "resolution", "inputs": dict(sc.describe(), drawing_part="xl/dr/drawing1.xml (relationships in xl/dr/_rels/drawing1.xml.rels)"),
+                        "expected": "1 image", "observed": f"{len(obs)} images: the drawing's relationship part is looked up under a name derived by text replacement of 'drawings/'"}
+            return None
+        sc = Scenario("xlsx", [[], [Anchor("xl/media/a.png")]], {"xl/media/a.png": A})
+        f = files_of(build_xlsx(sc))
+        wb = f["xl/_rels/workbook.xml.rels"]
+        f["xl/_rels/workbook.xml.rels"] = wb.replace(b"worksheets/sheet1.xml", b"worksheets/TMP").replace(b"worksheets/sheet2.xml", b"worksheets/sheet1.xml").replace(b"worksheets/TMP", b"worksheets/sheet2.xml")
+        c = read("xlsx", zip_bytes(f))
+        got = [(sh.name, [list(r) for r in sh.data], len(sh.images)) for sh in c.sheets]
+        bad = [g for g in got if (g[1] == [["v2"]]) != (g[2] == 1)]
+        if bad:
+            return {"target": "xlsx: iterate_units()", "aspect": "unit", "inputs": dict(sc.describe(), workbook_rels="tab 1 -> worksheets/sheet2.xml (cell v2, has the picture), tab 2 -> worksheets/sheet1.xml (cell v1)"),
+                    "expected": "the picture on the sheet whose cell is v2", "observed": f"(sheet, cells, images) = {got}"}
+        return None
+    if kind == "dangling":
+        # unit 2 places a picture whose relationship id exists only in the relationship part of unit 1
+        sc = Scenario(fmt, [[Anchor(f"{md}/a.png")], [Anchor(f"{md}/a.png", "relative", "dangling")], [Anchor(f"{md}/b.gif")]],
+                      {f"{md}/a.png": A, f"{md}/b.gif": B}, note="the picture on unit 2 uses an r:embed id that only the relationship part of unit 1 defines")
+        return first_failure([sc], ("no-foreign", "bytes", "unit", "numbering") if fmt != "pptx" else ("no-foreign", "bytes", "unit"))
     if kind == "odf-dot-href":
         return first_failure([simple(fmt, ["dot"], 1, 1)], ("resolution",))
     if kind == "resolution":
@@ -873,7 +979,21 @@ FMT_OF = {"docx_extractor": "docx", "pptx_extractor": "pptx", "xlsx_extractor": 
           "ods_extractor": "ods", "odg_extractor": "odg", "epub_extractor": "epub", "pdf_extractor": "pdf"}
 
 
-def search(ob):
+def model_files(wit):
+    """Candidate inputs taken from the solver model of the failed VC (byte strings: the decoded head, zero-padded to the model's length)."""
+    out = []
+    for k, v in (wit or {}).items():
+        if isinstance(v, dict) and "head" in v and "len" in v:
+            n = min(int(v["len"]), 1 << 16)
+            data = bytes((int(x) & 255) for x in v["head"][:n])
+            data = data + bytes(max(0, n - len(data)))
+            size = declared_size(data)
+            if size is not None:
+                out.append(("solver model", "jpeg" if data[:2] == b"\xff\xd8" else ("png" if data[:4] == b"\x89PNG" else ("gif" if data[:3] == b"GIF" else "bmp")), data, tuple(size)))
+    return out
+
+
+def search(ob, wit=None):
     """Native small-scope search for the obligation id `ob` -> failure dict or None."""
     mod = ob.split("/")[1].split(".py")[0] if "/" in ob else ""
     fmt = FMT_OF.get(mod)
@@ -885,6 +1005,13 @@ def search(ob):
         return check_resolver("_normalize_relative_path") or witness("resolution", "pptx")
     if "_resolve_drawing_path" in ob:
         return check_resolver("_resolve_drawing_path")
+    if "lookup-table-scope" in ob or "relationship-table-of-the-given-part" in ob or "relationships-of-the-slide-being-processed" in ob:
+        return witness("dangling", fmt) or sweep(fmt, ("resolution", "bytes", "unit"))
+    for lab, kind in (("#slide-part", "slide-target"), ("#drawing-relationship-part", "drawing-dir"), ("#sheet-relationship-part", "sheet-order")):
+        if lab in ob:
+            return witness(kind, fmt)
+    if "#slide-relationship-part" in ob:
+        return sweep("pptx", ("resolution", "bytes"))
     if "/resolution#" in ob:
         if fmt == "xlsx":
             return witness("resolution", "xlsx") or check_resolver("_resolve_image_path")
@@ -894,11 +1021,11 @@ def search(ob):
     if "/agree#" in ob:
         return check_sniffers("agree")
     if "_get_image_pixel_dimensions" in ob:
-        return check_sniffers(mod + ".py") or check_sniffers("agree")
+        return check_sniffers(mod + ".py", model_files(wit)) or check_sniffers("agree")
     if "get_jpeg_dimensions" in ob:
-        return check_sniffers("get_jpeg_dimensions")
+        return check_sniffers("get_jpeg_dimensions", model_files(wit))
     if "get_image_dimensions" in ob:
-        return check_sniffers("get_image_dimensions")
+        return check_sniffers("get_image_dimensions", model_files(wit))
     if "/numbering#counter-starts" in ob:
         return witness("numbering-per-unit", fmt)
     if "/numbering#" in ob:
@@ -957,6 +1084,8 @@ def exclusion_sweep(kind, fmt):
     if kind == "order":
         return first_failure(gen_scenarios(fmt, 7, 12, styles=("relative",), kinds=("embedded",), share=False, max_units=1 if fmt == "epub" else 3),
                              ("resolution", "bytes"), dedup=fmt in ("odt", "odg"))
+    if kind in ("slide-target", "drawing-dir", "sheet-order"):
+        return first_failure(gen_scenarios(fmt, 9, 12, styles=("relative", "absolute"), kinds=("embedded", "missing")), ("resolution", "bytes", "unit"))
     if kind == "odf-dot-href":
         return first_failure(gen_scenarios(fmt, 8, 12, styles=("relative",), kinds=("embedded", "missing", "external")), ("resolution", "bytes"), dedup=fmt in ("odt", "odg"))
     return None
@@ -973,7 +1102,7 @@ def find(req):
             x = {"observed": f"sweep crashed: {type(e).__name__}: {e}", "expected": "", "inputs": {}}
         out["outside_exclusion"] = x          # None: nothing fails outside the recorded exclusion (bounded native sweep)
         return out
-    r = search(req.get("obligation", ""))
+    r = search(req.get("obligation", ""), req.get("witness"))
     if r:
         return dict(r, reproduced=True)
     return {"reproduced": False, "note": "native small-scope search found no failing input"}
